@@ -2,6 +2,7 @@ package props
 
 import (
 	"fmt"
+	"math"
 	"math/big"
 	"sync" // nosim
 	"time"
@@ -50,7 +51,12 @@ func c01GenProfile(w *simrt.Stream) ref.Profile {
 			p.Desc = fmt.Sprintf("line(%v, %v, %v)", p.From, p.To, p.Dur)
 		case 2:
 			from := c01Rates[w.Draw(6)]
-			p = ref.Profile{Kind: "step", From: from, To: from + float64(w.Draw(6)), Step: int64(1 + w.Draw(3)), Dur: c01Durs[w.Draw(len(c01Durs))]}
+			to := from + float64(w.Draw(6))
+			if w.Draw(2) == 0 {
+				// the fractional parts of from and to are independent (from 0.5 to 2, from 1.5 to 3.2, ...)
+				to = math.Floor(from) + float64(1+w.Draw(6)) + []float64{0, 0, 0.2, 0.5, 0.9}[w.Draw(5)]
+			}
+			p = ref.Profile{Kind: "step", From: from, To: to, Step: int64(1 + w.Draw(3)), Dur: c01Durs[w.Draw(len(c01Durs))]}
 			p.Desc = fmt.Sprintf("step(%v, %v, %d, %v)", p.From, p.To, p.Step, p.Dur)
 		default:
 			p = ref.Profile{Kind: "once", Times: int64(1 + w.Draw(300))}
